@@ -11,6 +11,7 @@ mod common;
 mod linkmode;
 mod mst;
 mod ost;
+mod pair;
 
 use std::io::BufRead;
 use std::sync::atomic::{AtomicBool, Ordering};
@@ -85,6 +86,7 @@ fn main() {
                     "mst" => run_paused(mst::run_scenario(&sc)),
                     "transport" => run_paused(linkmode::run_transport(&sc)),
                     "codec" => run_paused(appmode::run_case(&sc)),
+                    "pair" => run_paused(pair::run_scenario(&sc)),
                     _ => {
                         eprintln!("unknown mode {m}");
                         std::process::exit(2);
